@@ -380,7 +380,7 @@ def run(tier: str) -> Check:
     # examples/calculator/pratt.py delegates the loop to the library's PrattParser: its rules are part of the agreement
     from .c18 import pratt_rules
 
-    pratt_rules(check, repo)
+    pratt_rules(check, repo, (0, -4))  # (the family shifted around zero as well is C18's)
     check.floor("calculator_sem_implementations", 3)
     check.floor("calculator_sem_points", 300)
     check.floor("pratt_calculator_streams", 300)
